@@ -15,8 +15,8 @@ print('baseline tests still passing:', len(base&passed), 'of', len(base))
 P
 rm -f $sd/junit.xml
 git diff > $sd/patch.confirmed.diff
-git stash -q
+git apply -R $sd/patch.confirmed.diff
 echo "== demo WITHOUT change"; (eval "$demo" > $sd/demo_without.log 2>&1; echo "exit=$?") | tee -a $sd/confirm.txt
 tail -2 $sd/demo_without.log
-git stash pop -q
+git apply $sd/patch.confirmed.diff
 git status --short | head -5
